@@ -34,6 +34,7 @@ type Scenario struct {
 	GrowSideBy       int           `json:"growside_by,omitempty"`
 	GrowXs           int           `json:"max_growx_ops,omitempty"` // bound on "growx" operations (extend the heaviest side leaf by GrowXBy unit-work headers: a long side branch that stays behind)
 	GrowXBy          int           `json:"growx_by,omitempty"`
+	MarkRaces        bool          `json:"mark_races,omitempty"`            // offer unmarkrace operations: an unmark with a second caller's mark arriving inside its storage write
 	UnmarkConfigured bool          `json:"unmark_configured,omitempty"`     // offer unmark for hashes marked through the configuration
 	MarkOnlyKnown    bool          `json:"mark_only_known,omitempty"`       // marks: accepted headers only (no pre-empted or unknown hashes, no unmarking)
 	Faults           []int         `json:"storage_fault_at_call,omitempty"` // submissions reaching a multiple of 10000 are also offered with the k-th storage call failing
@@ -162,7 +163,7 @@ func (sc *Scenario) enabled(w *hdr.World, hist []hdr.Op) []hdr.Op {
 			ops = append(ops, o)
 		}
 	}
-	if countOps(hist, "mark", "unmark", "markx") < sc.Marks {
+	if countOps(hist, "mark", "unmark", "markx", "unmarkrace") < sc.Marks {
 		for _, n := range w.Tree.Sorted() {
 			if n.Label != "G" {
 				ops = append(ops, hdr.Op{K: "mark", L: n.Label})
@@ -182,6 +183,16 @@ func (sc *Scenario) enabled(w *hdr.World, hist []hdr.Op) []hdr.Op {
 			ops = append(ops, hdr.Op{K: "unmark", L: l})
 			if len(ops) > 0 && !w.Submitted[l] {
 				continue
+			}
+		}
+		if sc.MarkRaces {
+			// every marked header unmarked while a second caller marks any other accepted header
+			for _, l := range w.MarkedLabels {
+				for _, n := range w.Tree.Sorted() {
+					if n.Label != "G" && n.Label != l {
+						ops = append(ops, hdr.Op{K: "unmarkrace", L: l + "|" + n.Label})
+					}
+				}
 			}
 		}
 		if sc.UnmarkConfigured {
